@@ -107,7 +107,11 @@ def correspondence(ctx):
                  "products, so that the link file exceeds 1 MiB; chains with --normalize-line-endings (files with CRLF and lone CR) and "
                  "--follow-symlink-dirs (a symlinked directory in the recorded tree) on every command with run and record start/stop mixed. "
                  "verify is also invoked with an additional / only missing key path, a directory as key path (all must end non-zero) and a "
-                 "key file whose name contains [ ] * (must load literally). Directory shapes: the working directory of run/record, the metadata directory (-d, relative, absolute, "
+                 "key file whose name contains [ ] * (must load literally); with 2-3 named keys of which one is unusable (nonexistent, empty, OpenSSH "
+                 "text, JSON, garbage, a directory) in first / middle / last position, comma list or repeated flag: non-zero and no inspection "
+                 "ran, plus the all-loadable twin (CLI = library). Every third chain also runs `run -- <one blank argument>` (\"\", space, tab, "
+                 "newline, mixed) and one argument with blanks inside (\"echo  hi\"): non-zero and no link written; and argument lists with "
+                 "blank / empty members whose link must record the command verbatim. Directory shapes: the working directory of run/record, the metadata directory (-d, relative, absolute, "
                  "trailing slash), verify's working directory, link directory and layout file name are drawn from names with %, %s, %d, %2F, [1], "
                  "*, ?, backslash, spaces, {x} and non-ASCII; in a quarter of the chains verify's working directory is entered through a "
                  "symlink (PWD = symlink path) so that a relative ../links differs between the kernel's and a lexical reading; CLI and library "
